@@ -57,6 +57,7 @@ theorem c14_split_on_source (abs : Bool) (segs : List Str.S) :
   rw [h]; exact Fmt.c14_split_returns_all_segments abs segs
 
 
+
 -- BEGIN PINS (written by bin/mkpins; do not edit by hand)
 /-- the Go functions this property's model and obligations were written against have exactly the
 pinned skeletons (SHA-256 prefix of the atom list) -/
